@@ -202,6 +202,26 @@ impl ModelDesc for DEnum3<'static> {
     }
 }
 
+#[derive(hecs::Query)]
+pub enum DEnum2<'a> {
+    Pair(&'a A, &'a mut B),
+    Solo { c: &'a C, d: Option<&'a D> },
+}
+impl Canon for DEnum2<'_> {
+    fn canon(&self) -> String {
+        match self {
+            DEnum2::Pair(a, b) => format!("L({})", (*a, &**b).canon()),
+            DEnum2::Solo { c, d } => format!("R({})", (*c, *d).canon()),
+        }
+    }
+}
+impl ModelDesc for DEnum2<'static> {
+    fn desc() -> String {
+        type V1 = (&'static A, &'static mut B);
+        <Or<V1, Without<(&'static C, Option<&'static D>), V1>> as ModelDesc>::desc()
+    }
+}
+
 #[macro_export]
 macro_rules! with_query {
     ($k:expr, $Q:ident, $body:expr) => {{
@@ -252,11 +272,13 @@ macro_rules! with_query {
             41 => { type $Q = $crate::query_engine::DEnum3<'static>; $body }
             42 => { type $Q = (&'static C, $crate::query_engine::DEnum<'static>); $body }
             43 => { type $Q = Option<$crate::query_engine::DStruct<'static>>; $body }
+            44 => { type $Q = $crate::query_engine::DEnum2<'static>; $body }
+            45 => { type $Q = Or<$crate::query_engine::DEnum2<'static>, &'static E>; $body }
             _ => panic!("harness: bad query menu index"),
         }
     }};
 }
-pub const NQUERIES: usize = 44;
+pub const NQUERIES: usize = 46;
 
 pub fn query_desc(k: usize) -> String {
     with_query!(k, QT, <QT as ModelDesc>::desc())
@@ -271,12 +293,22 @@ fn sorted_pairs(mut v: Vec<(Entity, String)>) -> String {
     format!("[{}]", s.join(";"))
 }
 
-pub const PATHS: [&str; 14] = [
+pub const PATHS: [&str; 18] = [
     "iter", "mut", "prepared", "prepared_mut", "view", "view_mut", "prepared_view", "batched", "one", "one_mut", "sat",
-    "eref", "many", "mut_batched",
+    "eref", "many", "mut_batched", "many_w", "many_v", "many_vb", "many_pv",
 ];
 
-fn run<Q>(world: &mut World, path: &str, h: Entity, hs: &[Entity], n: u32, store: &mut HashMap<usize, Box<dyn Any>>, k: usize) -> String
+#[allow(clippy::too_many_arguments)]
+fn run<Q>(
+    world: &mut World,
+    path: &str,
+    h: Entity,
+    hs: &[Entity],
+    es: &[Entity],
+    n: u32,
+    store: &mut HashMap<usize, Box<dyn Any>>,
+    k: usize,
+) -> String
 where
     Q: Query + 'static,
     for<'a> Q::Item<'a>: Canon,
@@ -318,7 +350,7 @@ where
                 .map(|&e| {
                     let c = v.contains(e);
                     let r = v.get_mut(e).map(|i| i.canon());
-                    assert_eq!(c, r.is_some(), "harness: View::contains and get_mut disagree");
+                    assert_eq!(c, r.is_some(), "impl-inconsistency: View::contains and get_mut disagree");
                     r.unwrap_or_else(|| "-".into())
                 })
                 .collect();
@@ -332,7 +364,7 @@ where
                 .map(|&e| {
                     let c = v.contains(e);
                     let r = v.get_mut(e).map(|i| i.canon());
-                    assert_eq!(c, r.is_some(), "harness: View::contains and get_mut disagree");
+                    assert_eq!(c, r.is_some(), "impl-inconsistency: View::contains and get_mut disagree");
                     r.unwrap_or_else(|| "-".into())
                 })
                 .collect();
@@ -347,7 +379,7 @@ where
                 .map(|&e| {
                     let c = v.contains(e);
                     let r = v.get_mut(e).map(|i| i.canon());
-                    assert_eq!(c, r.is_some(), "harness: PreparedView::contains and get_mut disagree");
+                    assert_eq!(c, r.is_some(), "impl-inconsistency: PreparedView::contains and get_mut disagree");
                     r.unwrap_or_else(|| "-".into())
                 })
                 .collect();
@@ -392,6 +424,56 @@ where
                 Ok(i) => format!("item={}", i.canon()),
             }
         }
+        "many_w" | "many_v" | "many_vb" | "many_pv" => {
+            let opt = |o: Option<Q::Item<'_>>| o.map_or("-".to_string(), |i| i.canon());
+            macro_rules! many {
+                ($N:literal) => {{
+                    let arr: [Entity; $N] = core::array::from_fn(|i| es[i]);
+                    match path {
+                        "many_w" => {
+                            let rs = world.query_many_mut::<Q, $N>(arr);
+                            let v: Vec<String> = rs
+                                .into_iter()
+                                .map(|r| match r {
+                                    Err(hecs::QueryOneError::NoSuchEntity) => "nosuch".to_string(),
+                                    Err(hecs::QueryOneError::Unsatisfied) => "unsat".to_string(),
+                                    Ok(i) => format!("item={}", i.canon()),
+                                })
+                                .collect();
+                            format!("r=[{}]", v.join(","))
+                        }
+                        "many_v" => {
+                            let mut v = world.view_mut::<Q>();
+                            let rs = v.get_many_mut(arr);
+                            format!("g=[{}]", rs.into_iter().map(opt).collect::<Vec<_>>().join(","))
+                        }
+                        "many_vb" => {
+                            let mut v = world.view::<Q>();
+                            let rs = v.get_many_mut(arr);
+                            format!("g=[{}]", rs.into_iter().map(opt).collect::<Vec<_>>().join(","))
+                        }
+                        _ => {
+                            let pq = store
+                                .entry(k)
+                                .or_insert_with(|| Box::new(PreparedQuery::<Q>::new()))
+                                .downcast_mut::<PreparedQuery<Q>>()
+                                .unwrap();
+                            let mut v = pq.view_mut(world);
+                            let rs = v.get_many_mut(arr);
+                            format!("g=[{}]", rs.into_iter().map(opt).collect::<Vec<_>>().join(","))
+                        }
+                    }
+                }};
+            }
+            match es.len() {
+                2 => many!(2),
+                3 => many!(3),
+                4 => many!(4),
+                5 => many!(5),
+                6 => many!(6),
+                _ => panic!("harness: many_* needs 2..=6 handles"),
+            }
+        }
         "sat" => match world.satisfies::<Q>(h) {
             Err(_) => "nosuch".into(),
             Ok(b) => format!("{}", b),
@@ -404,11 +486,11 @@ where
                 let r = q1.get().map(|i| i.canon());
                 match r {
                     None => {
-                        assert!(!s, "harness: EntityRef::satisfies true but query yields nothing");
+                        assert!(!s, "impl-inconsistency: EntityRef::satisfies true but query yields nothing");
                         "unsat".into()
                     }
                     Some(i) => {
-                        assert!(s, "harness: EntityRef::satisfies false but query yields an item");
+                        assert!(s, "impl-inconsistency: EntityRef::satisfies false but query yields an item");
                         format!("item={}", i)
                     }
                 }
@@ -425,8 +507,9 @@ pub fn exec_query(
     path: &str,
     h: Entity,
     hs: &[Entity],
+    es: &[Entity],
     n: u32,
     store: &mut HashMap<usize, Box<dyn Any>>,
 ) -> String {
-    with_query!(k, QT, run::<QT>(world, path, h, hs, n, store, k))
+    with_query!(k, QT, run::<QT>(world, path, h, hs, es, n, store, k))
 }
